@@ -604,11 +604,6 @@ theorem reopened_prefix (a : NameApi) (n s : Name) (h : nameReopened a n = some 
   case vgname => simp only [nameReopened, Option.some.injEq] at h; subst h; exact List.take_prefix _ _
   case vgclass => simp only [nameReopened, Option.some.injEq] at h; subst h; exact List.take_prefix _ _
   case grname => simp only [nameReopened, Option.some.injEq] at h; subst h; exact List.take_prefix _ _
-  case attrname =>
-    simp only [nameReopened] at h
-    split at h
-    · cases h
-    · simp only [Option.some.injEq] at h; subst h; exact List.take_prefix _ _
   all_goals exact stored_prefix _ n s (by simpa [nameReopened] using h)
 
 /-- the fixed buffers: `VSsetname`/`VSsetclass` put at most `VSNAMELENMAX + 1 = sizeof vsname` bytes (terminator
@@ -630,7 +625,10 @@ theorem stored_length_le (a : NameApi) (n s : Name) (h : nameStored a n = some s
   all_goals
     split at h
     · cases h
-    · rename_i hh; simp only [Option.some.injEq] at h; subst h; simp only; omega
+    · rename_i hh; simp only [Option.some.injEq] at h; subst h; simp only
+      have h64 := (consts2).2.2.2.2.1
+      have h256 := (consts2).2.2.2.2.2.2.1
+      omega
 
 /-- SD names: accepted iff at most `H4_MAX_NC_NAME` characters -/
 theorem sdname_accept_iff (n : Name) : (nameStored .sdname n).isSome = true ↔ n.length ≤ 256 := by
@@ -649,18 +647,15 @@ theorem vgname_roundtrip_iff (n : Name) : nameReopened .vgname n = nameStored .v
   · intro h
     rw [Nat.mod_eq_of_lt h, List.take_length]
 
-/-- SD attribute names survive close/reopen iff they have at most `VSNAMELENMAX` characters (the attribute is a
-    vdata named with `VSsetname`; finding `limits-attrname-truncated`) -/
-theorem attrname_roundtrip_iff (n : Name) (h : n.length ≤ 256) :
-    nameReopened .attrname n = nameStored .attrname n ↔ n.length ≤ 64 := by
-  have h' : ¬ n.length > H4_MAX_NC_NAME := by rw [(consts2).2.2.2.2.2.2.1]; omega
-  simp only [nameReopened, nameStored, h', if_false, Option.some.injEq, (consts2).2.2.2.2.1]
-  constructor
-  · intro hh
-    have := congrArg List.length hh
-    simp only [List.length_take] at this
-    omega
-  · intro hh; exact List.take_of_length_le hh
+/-- SD attribute names: `SDsetattr` accepts a name iff a vdata name can hold it (`VSNAMELENMAX` characters), and every
+    accepted name survives close/reopen unchanged (before the repair longer names were accepted and came back truncated:
+    finding `limits-attrname-truncated`) -/
+theorem attrname_accept_iff (n : Name) : (nameStored .attrname n).isSome = true ↔ n.length ≤ 64 := by
+  simp only [nameStored, (consts2).2.2.2.2.1]
+  split <;> simp <;> omega
+
+theorem attrname_roundtrip (n : Name) : nameReopened .attrname n = nameStored .attrname n := by
+  simp [nameReopened]
 
 /-- the length read back for a Vgroup-backed name is the given length modulo 2^16 -/
 theorem vgname_reopened_length (n s : Name) (h : nameReopened .vgname n = some s) : s.length = n.length % 65536 := by
